@@ -252,6 +252,11 @@ FAMILIES = {
 
 def finding_key(fl):
     """Canonical key of a recognised defect of the unchanged tree (for KNOWN_FINDINGS.jsonl); None otherwise."""
+    evs = fl["run_events"]
+    if sum(1 for e in evs if e.get("ev") == "msg" and e.get("kind") == "warning" and e.get("data", "").startswith("Got add HTLC message while quiescent")) >= 1 \
+            and any(e.get("ev") == "msg" and e.get("kind") == "tx_abort" and e.get("data", "").startswith("Signing was not completed") for e in evs) \
+            and fl["rec"].get("ev") == "msg" and fl["rec"].get("kind") in ("update_add_htlc", "update_fulfill_htlc", "update_fail_htlc", "commitment_signed"):
+        return "splice_tx_abort_sent_after_update_retransmission_livelock"
     for e in fl["run_events"]:
         if e.get("ev") == "msg" and e.get("kind") == "error":
             d = e.get("data", "")
